@@ -11,45 +11,9 @@
    predicates govalidator.IsHost / IsCIDR, the resolver and time.ParseDuration are ORACLES (Section variables):
    every theorem holds for all of them; the correspondence run answers them by calling the real functions. *)
 From Coq Require Import List NArith ZArith Bool String Ascii.
-From GoUpf Require Import ConfigGen ConstsGen.
+From GoUpf Require Import ConfigGen ConstsGen ConfigSpec.
 Import ListNotations.
 Local Open Scope string_scope.
-
-(* ================================================================ YAML documents (what the file can contain) *)
-
-Inductive skind :=
-| KNull                      (* ~, null, or an empty value *)
-| KStr                       (* quoted, or plain text that resolves to a string *)
-| KInt (z : Z)               (* plain integer *)
-| KFloat (trunc : Z)         (* plain float; trunc = its value truncated toward zero (what Go's conversion yields) *)
-| KBool (b : bool).          (* true/false/yes/no/on/off *)
-
-Inductive yv :=
-| YScalar (k : skind) (text : string)     (* text = the scalar as written (unquoted) *)
-| YSeq (l : list yv)
-| YMap (kvs : list (string * yv)).
-
-Fixpoint ylookup (k : string) (kvs : list (string * yv)) : option yv :=
-  match kvs with
-  | [] => None
-  | (k', v) :: r => if String.eqb k' k then Some v else ylookup k r
-  end.
-
-Fixpoint str_mem (s : string) (l : list string) : bool :=
-  match l with [] => false | h :: t => String.eqb s h || str_mem s t end.
-Fixpoint str_nodup (l : list string) : bool :=
-  match l with [] => true | h :: t => negb (str_mem h t) && str_nodup t end.
-
-(* ================================================================ the parsed configuration (factory.Config) *)
-
-Record pfcp := { p_addr : string; p_nodeid : string; p_retrans_timeout : Z; p_max_retrans : Z }.
-Record ifinfo := { i_addr : string; i_type : string; i_name : string; i_ifname : string; i_mtu : Z }.
-Record gtpu := { g_forwarder : string; g_iflist : list ifinfo }.
-Record dnn := { d_dnn : string; d_cidr : string; d_natifname : string }.
-Record logcfg := { l_enable : bool; l_level : string; l_report_caller : bool }.
-Record config := {
-  c_version : string; c_description : string;
-  c_pfcp : option pfcp; c_gtpu : option gtpu; c_dnnlist : list dnn; c_logger : option logcfg }.
 
 (* generic view of a Go value, for the tag interpreter *)
 Inductive gval :=
@@ -165,18 +129,25 @@ Section Oracles.
     | Some _ => None
     end.
 
-  (* a mapping decoded into a struct: keys must be distinct ("mapping key already defined"), unknown keys are ignored *)
+  (* a mapping decoded into a struct: unknown keys are ignored; a repeated key is decoded every time it occurs
+     (a type error in any occurrence is an error) and the last occurrence stays (ylookup) *)
+  Definition occurrences (k : string) (kvs : list (string * yv)) : list yv :=
+    map snd (filter (fun kv => String.eqb (fst kv) k) kvs).
+  Definition is_some {A} (o : option A) : bool := match o with Some _ => true | None => false end.
+  Definition dec_field {A} (dec : option yv -> option A) (k : string) (kvs : list (string * yv)) : option A :=
+    if forallb (fun y => is_some (dec (Some y))) (occurrences k kvs) then dec (ylookup k kvs) else None.
+
   Definition dec_struct {A} (f : list (string * yv) -> option A) (zero : A) (y : option yv) : option A :=
     match y with
     | None | Some (YScalar KNull _) => Some zero
-    | Some (YMap kvs) => if str_nodup (map fst kvs) then f kvs else None
+    | Some (YMap kvs) => f kvs
     | Some _ => None
     end.
 
   Definition dec_ptr {A} (f : list (string * yv) -> option A) (y : option yv) : option (option A) :=
     match y with
     | None | Some (YScalar KNull _) => Some None
-    | Some (YMap kvs) => if str_nodup (map fst kvs) then option_map Some (f kvs) else None
+    | Some (YMap kvs) => option_map Some (f kvs)
     | Some _ => None
     end.
 
@@ -199,39 +170,39 @@ Section Oracles.
   Notation "x <- e ;; r" := (bind e (fun x => r)) (at level 61, e at next level, right associativity).
 
   Definition dec_pfcp (kvs : list (string * yv)) : option pfcp :=
-    a <- dec_string (ylookup "addr" kvs) ;; n <- dec_string (ylookup "nodeID" kvs) ;;
-    t <- dec_duration (ylookup "retransTimeout" kvs) ;; m <- dec_uint 8 (ylookup "maxRetrans" kvs) ;;
+    a <- dec_field dec_string "addr" kvs ;; n <- dec_field dec_string "nodeID" kvs ;;
+    t <- dec_field dec_duration "retransTimeout" kvs ;; m <- dec_field (dec_uint 8) "maxRetrans" kvs ;;
     Some {| p_addr := a; p_nodeid := n; p_retrans_timeout := t; p_max_retrans := m |}.
 
   Definition zero_ifinfo : ifinfo := {| i_addr := ""; i_type := ""; i_name := ""; i_ifname := ""; i_mtu := 0 |}.
   Definition dec_ifinfo (kvs : list (string * yv)) : option ifinfo :=
-    a <- dec_string (ylookup "addr" kvs) ;; t <- dec_string (ylookup "type" kvs) ;;
-    n <- dec_string (ylookup "name" kvs) ;; i <- dec_string (ylookup "ifname" kvs) ;;
-    m <- dec_uint 32 (ylookup "mtu" kvs) ;;
+    a <- dec_field dec_string "addr" kvs ;; t <- dec_field dec_string "type" kvs ;;
+    n <- dec_field dec_string "name" kvs ;; i <- dec_field dec_string "ifname" kvs ;;
+    m <- dec_field (dec_uint 32) "mtu" kvs ;;
     Some {| i_addr := a; i_type := t; i_name := n; i_ifname := i; i_mtu := m |}.
 
   Definition dec_gtpu (kvs : list (string * yv)) : option gtpu :=
-    f <- dec_string (ylookup "forwarder" kvs) ;;
-    l <- dec_slice dec_ifinfo zero_ifinfo (ylookup "ifList" kvs) ;;
+    f <- dec_field dec_string "forwarder" kvs ;;
+    l <- dec_field (dec_slice dec_ifinfo zero_ifinfo) "ifList" kvs ;;
     Some {| g_forwarder := f; g_iflist := l |}.
 
   Definition zero_dnn : dnn := {| d_dnn := ""; d_cidr := ""; d_natifname := "" |}.
   Definition dec_dnn (kvs : list (string * yv)) : option dnn :=
-    d <- dec_string (ylookup "dnn" kvs) ;; c <- dec_string (ylookup "cidr" kvs) ;;
-    n <- dec_string (ylookup "natifname" kvs) ;;
+    d <- dec_field dec_string "dnn" kvs ;; c <- dec_field dec_string "cidr" kvs ;;
+    n <- dec_field dec_string "natifname" kvs ;;
     Some {| d_dnn := d; d_cidr := c; d_natifname := n |}.
 
   Definition dec_logger (kvs : list (string * yv)) : option logcfg :=
-    e <- dec_bool (ylookup "enable" kvs) ;; l <- dec_string (ylookup "level" kvs) ;;
-    r <- dec_bool (ylookup "reportCaller" kvs) ;;
+    e <- dec_field dec_bool "enable" kvs ;; l <- dec_field dec_string "level" kvs ;;
+    r <- dec_field dec_bool "reportCaller" kvs ;;
     Some {| l_enable := e; l_level := l; l_report_caller := r |}.
 
   Definition zero_config : config :=
     {| c_version := ""; c_description := ""; c_pfcp := None; c_gtpu := None; c_dnnlist := []; c_logger := None |}.
   Definition dec_config (kvs : list (string * yv)) : option config :=
-    v <- dec_string (ylookup "version" kvs) ;; d <- dec_string (ylookup "description" kvs) ;;
-    p <- dec_ptr dec_pfcp (ylookup "pfcp" kvs) ;; g <- dec_ptr dec_gtpu (ylookup "gtpu" kvs) ;;
-    n <- dec_slice dec_dnn zero_dnn (ylookup "dnnList" kvs) ;; l <- dec_ptr dec_logger (ylookup "logger" kvs) ;;
+    v <- dec_field dec_string "version" kvs ;; d <- dec_field dec_string "description" kvs ;;
+    p <- dec_field (dec_ptr dec_pfcp) "pfcp" kvs ;; g <- dec_field (dec_ptr dec_gtpu) "gtpu" kvs ;;
+    n <- dec_field (dec_slice dec_dnn zero_dnn) "dnnList" kvs ;; l <- dec_field (dec_ptr dec_logger) "logger" kvs ;;
     Some {| c_version := v; c_description := d; c_pfcp := p; c_gtpu := g; c_dnnlist := n; c_logger := l |}.
 
   (* yaml.Unmarshal(content, cfg): the document (None = empty file) *)
@@ -406,3 +377,9 @@ Definition version_ok (now : ver) : bool :=
   | Some lo, Some hi => negb (lo || hi)
   | _, _ => false
   end.
+
+(* version.NewVersion parses each component with strconv.ParseInt(.., 10, 64): a component beyond int64 is
+   "Error parsing version" and checkVersion fails *)
+Definition int64_fits (n : N) : bool := n <? 9223372036854775808.
+Definition check_version (v : ver) : bool :=
+  match v with (x, y, z) => int64_fits x && int64_fits y && int64_fits z && version_ok v end.
